@@ -48,6 +48,13 @@ class State(object):
         self.ctx.fail(what, payload, finding_key=key, kind='property-on-implementation')
 
 
+def build_state(ctx):
+    st = State(ctx)
+    for sec in (sec_pairs, sec_triples, sec_copies, sec_signed):
+        sec(st)
+    return st
+
+
 def compare_pair(st, tag, a, b, oa, ob):
     """all four forms in both orders against the model; then the property on the implementation."""
     res = {}
@@ -323,9 +330,7 @@ def sec_signed(st):
 
 def run(ctx):
     ok, res = core.proof_step(ctx)
-    st = State(ctx)
-    for sec in (sec_pairs, sec_triples, sec_copies, sec_signed):
-        sec(st)
+    st = build_state(ctx)
     for k in st.cases[:2] + st.cases[len(st.cases) // 2:len(st.cases) // 2 + 2] + st.cases[-2:]:
         ctx.sample({'case': k[0], 'input_and_implementation_result': st.payloads[k[0]], 'model_check': k[1][:400]})
     nbad = core.compare_cases(ctx, st.cases, IMPORTS, 'C09 equality/copies', st.payloads, model_expr=st.mexpr,
@@ -353,13 +358,17 @@ def run(ctx):
         '"shares no mutable state" is decided on the implementation (object identity, shared memory, mutate-and-reobserve), not in the value-semantic model',
         'values stored in props are user objects: a mutable value (a list) is shared between copy and original by from_fingerprint (shallow copy of the dict); only the containers owned by the fingerprint are required to be fresh',
         'copy.copy is the standard shallow copy (shares props/counts/cache by definition) and is only required to be equal (checked in C10)',
-        'fingerprints holding zero or negative counts (results of subtraction) are outside the domain: from_fingerprint drops those positions (witness copy_nonpositive_refuted); reproduced and recorded as a note']
+        'copy_drops_nonpositive_counts is kept as an evidence note ONLY for inputs that themselves hold zero or negative counts (results of subtraction: not "counts" of set bits, outside the quantifier); for every input whose listed positions all have positive counts an unequal copy is a violation (copy:not-equal). Coq: copy_eq assumes wf_fp, witness copy_nonpositive_refuted']
     if not ok:
         core.report_broken_proof(ctx, res, found_input)
 
 
+def _db_part(ctx):
+    import importlib
+    return importlib.import_module('props.c09_db').part(ctx)
+
+
 def replay(ctx, path):
-    import json
-    d = json.load(open(path))
-    print(json.dumps(d, indent=1)[:6000])
-    return 0
+    """bin/check C09 --replay FILE: regenerate the recorded case (seed and tier from the file), drive the implementation and the
+    model again; exit 1 with a VIOLATION line if it still fails."""
+    return fpio.replay_regenerate('C09', path, build_state, IMPORTS, 'C09 equality/copies', extra_parts=(_db_part,))
